@@ -98,7 +98,14 @@ def decorate(sc, rnd):
             if rnd.random() < 0.2:
                 o["h"] = list(o.get("h", [])) + [rnd.choice(o.get("h") or ["md5"])]
     if rnd.random() < 0.4:
-        sc["ops"].append({"op": "flatten", "at": ""})
+        fl = {"op": "flatten", "at": ""}
+        if rnd.random() < 0.7:
+            fl.update({"author_name": rnd.choice(C10.STRINGS), "author_email": rnd.choice(["a@b.c", "first.last@example.org"]), "author_phone": rnd.choice(["+49 89 1234", "n/a"]), "author_role": rnd.choice(C10.STRINGS)})
+        if rnd.random() < 0.5:
+            fl["location"] = rnd.choice(C10.STRINGS)
+        if rnd.random() < 0.5:
+            fl["comment"] = rnd.choice(C10.STRINGS)
+        sc["ops"].append(fl)
     return sc
 
 
